@@ -23,7 +23,7 @@ def plan(tier, seed):
 
 
 def run_shard(spec, acc):
-    brokerwl.shard_broker(spec, acc, PROP, 'benign')
+    brokerwl.shard_broker(spec, acc, PROP, 'benign+back')
 
 
 def replay(case, acc):
